@@ -48,10 +48,14 @@ def close_tree(a, b, tol=1e-9, scale=None):
     if isinstance(a, dict) and isinstance(b, dict):
         if set(a) != set(b):
             return False
-        vals = [abs(v) for v in _leaves(b)]
+        vals = [abs(v) for v in _leaves(b) if v == v and abs(v) != float("inf")]
         sc = max([1.0] + vals)
         return all(close_tree(a[k], b[k], tol, sc) for k in a)
     if isinstance(a, float) and isinstance(b, float):
+        if a != a or b != b:
+            return a != a and b != b        # undefined (NaN) under the same name on both sides: outside the quantifier, but equal
+        if abs(a) == float("inf") or abs(b) == float("inf"):
+            return a == b
         return abs(a - b) <= tol * (scale or max(1.0, abs(b)))
     return a == b
 
